@@ -8,7 +8,7 @@ WORK = os.path.join(e2v.SCRATCH, "c20")
 
 def setup(src):
     e2v.build_harness("h_layout", src)
-    e2v.build_driver("layout", ["theories/Layout/Layout.vo"], ["layout_model"])
+    e2v.build_driver("layout", ["theories/Layout/Layout.vo", "theories/Layout/BackupBgs.vo"], ["layout_model"])
 
 
 def run_lines(exe, text):
@@ -223,7 +223,15 @@ def tool_case(src, mexe, idx, seed, tier):
             with open(img, "r+b") as f:
                 f.truncate(newk * 1024)
             step([T("e2fsck/e2fsck"), "-fy", img])
-            step([T("resize/resize2fs"), img, "%dK" % newk])
+            fsb = Fs(img)
+            rcg, _ = step([T("resize/resize2fs"), img, "%dK" % newk])
+            fsa = Fs(img)
+            if rcg == 0 and fsb.compat & COMPAT_SPARSE_SUPER2 and fsa.groups_count > fsb.groups_count:
+                # the second sparse_super2 backup group after the grow vs the extracted grow_b1_new
+                want = [l for l in run_lines(mexe, "BG %d %d %d\n" % (fsb.groups_count, fsa.groups_count, fsb.backup_bgs[1])) if l and l != "END"]
+                if want and int(want[0]) != fsa.backup_bgs[1]:
+                    after_resize.append("model: s_backup_bgs[1] after growing %d -> %d groups from %s is %s, resize2fs left %s" % (
+                        fsb.groups_count, fsa.groups_count, list(fsb.backup_bgs), want[0], list(fsa.backup_bgs)))
         elif m == "shrink":
             newk = int(size[:-1]) * 1024 * 3 // 4
             if wide:
@@ -333,7 +341,7 @@ def run(res, replay=None):
     hexe = e2v.build_harness("h_layout", src)
     pr = e2v.coq_property("C20")
     res.add_proof(pr)
-    mexe = e2v.build_driver("layout", ["theories/Layout/Layout.vo"], ["layout_model"])
+    mexe = e2v.build_driver("layout", ["theories/Layout/Layout.vo", "theories/Layout/BackupBgs.vo"], ["layout_model"])
     res.cov["trusted_base"] = e2v.TRUSTED_COMMON + [
         "lib/extfmt.py: the check's own reader (backup decoding, tree comparison)",
         "the tools are run on generated images; which blocks the tools write is observed, not modelled",
